@@ -324,3 +324,71 @@ Definition slc_obs (H : hf_cfg) (C : ag_cfg) :=
   | Done h a sent => (true, sent, Some (hf_obs h, ag_obs a))
   | Failed c w => (false, [c; w], None)
   end.
+
+(* ---------- after the SLC: AG indicator updates (+CIEV) and codec selection (+BCS) ----------
+   AgProtocol.update_ag_indicator / HfProtocol.handle_unsolicited -> update_ag_indicator,
+   AgProtocol.negotiate_codec / HfProtocol.setup_codec_connection / AgProtocol._on_bcs, _on_bac.
+   The AG finds the FIRST entry of its list with the given indicator name, stores the value
+   and sends +CIEV: <position + 1>,<value>; the HF stores the value at <index - 1>.
+   The AG proposes a codec with +BCS: the HF answers AT+BCS=<id> if it supports the codec
+   (both ends then make it the active codec), otherwise AT+BAC=<its codecs> (the AG records
+   the list; nothing becomes active; AgProtocol.negotiate_codec keeps waiting - see docs). *)
+Inductive lop := OpCiev (name value : Z) | OpBcs (codec : Z).
+
+Record live := mkLive {
+  lv_ag_status : list Z;       (* current_status of AgProtocol.ag_indicators *)
+  lv_hf_status : list Z;       (* current_status of HfProtocol.ag_indicators *)
+  lv_ag_codec : Z;             (* AgProtocol.active_codec *)
+  lv_hf_codec : Z;             (* HfProtocol.active_codec *)
+  lv_ag_codecs : list Z        (* AgProtocol.supported_audio_codecs *)
+}.
+
+Fixpoint first_index (name : Z) (l : list ag_ind) (k : nat) : option nat :=
+  match l with
+  | [] => None
+  | i :: r => if ai_name i =? name then Some k else first_index name r (S k)
+  end.
+
+Fixpoint set_nth (n : nat) (v : Z) (l : list Z) : list Z :=
+  match l, n with
+  | [], _ => []
+  | _ :: r, O => v :: r
+  | x :: r, S k => x :: set_nth k v r
+  end.
+
+Definition live_step (H : hf_cfg) (C : ag_cfg) (s : live) (o : lop) : live :=
+  match o with
+  | OpCiev name value =>
+      match first_index name (ac_indicators C) 0 with
+      | None => s                                   (* KeyError: nothing is sent *)
+      | Some k =>
+          let wire := Z.of_nat k + 1 in              (* +CIEV: index + 1 *)
+          mkLive (set_nth k value (lv_ag_status s))
+                 (set_nth (Z.to_nat (wire - 1)) value (lv_hf_status s))
+                 (lv_ag_codec s) (lv_hf_codec s) (lv_ag_codecs s)
+      end
+  | OpBcs codec =>
+      if zmem codec (hc_codecs H)
+      then mkLive (lv_ag_status s) (lv_hf_status s) codec codec (lv_ag_codecs s)
+      else mkLive (lv_ag_status s) (lv_hf_status s) (lv_ag_codec s) (lv_hf_codec s) (hc_codecs H)
+  end.
+
+(* both ends start with CVSD (1) as the active codec *)
+Definition live_init (H : hf_cfg) (C : ag_cfg) : option live :=
+  match slc H C with
+  | Done h a _ => Some (mkLive (map ai_status (ac_indicators C)) (map hi_status (hf_ag_indicators h))
+                               1 1 (ag_codecs a))
+  | Failed _ _ => None
+  end.
+
+Definition live_run (H : hf_cfg) (C : ag_cfg) (ops : list lop) : option live :=
+  match live_init H C with
+  | Some s => Some (fold_left (live_step H C) ops s)
+  | None => None
+  end.
+
+Definition live_obs (H : hf_cfg) (C : ag_cfg) (ops : list lop) :=
+  match live_run H C ops with
+  | Some s => Some (lv_ag_status s, lv_hf_status s, lv_ag_codec s, lv_hf_codec s, lv_ag_codecs s)
+  | None => None
+  end.
